@@ -891,6 +891,8 @@ def _b_str(x=""):
 
 
 def _b_sorted(xs, **k):
+    if hasattr(xs, "sorted_names"):
+        return xs.sorted_names()
     xs = list(xs)
     if _has_sym(xs):
         raise Unsupported("sorted() of symbolic values")
